@@ -171,6 +171,15 @@ fn data_for(tier: Tier) -> BoxedStrategy<Data> {
         )
         .prop_map(|segs| Data { segs }),
         1 => (70_000u32..150_000, any::<u64>()).prop_map(|(len, seed)| Data { segs: vec![Seg::Rand { len, seed }, Seg::Mixed { len: 5000, seed }] }),
+        // compressible, then a stored (incompressible) stretch, then a short compressible tail:
+        // LZMA chunk -> uncompressed chunks -> LZMA chunk with a state reset (control 0xA0..)
+        2 => (
+            prop_oneof![seg_strategy(40_000), (500u32..30_000, any::<u64>()).prop_map(|(len, seed)| Seg::Text { len, seed })],
+            66_000u32..140_000,
+            any::<u64>(),
+            prop_oneof![(50u32..6000, any::<u64>()).prop_map(|(len, seed)| Seg::Text { len, seed }), (50u32..70_000, any::<u64>()).prop_map(|(len, seed)| Seg::Mixed { len, seed }), seg_strategy(100_000)],
+        )
+            .prop_map(|(head, len, seed, tail)| Data { segs: vec![head, Seg::Rand { len, seed }, tail] }),
     ]
     .boxed()
 }
